@@ -38,9 +38,9 @@ PROPS = ["Properties/C07.v"]
 WORKER = "harness.impl.c07_worker"
 
 BUG_FLAGS = ["bD7", "bD8", "bD10", "bD11", "bN1", "bN2", "bN3", "bN4", "bN5", "bN6", "bN7", "bN8",
-             "bN9", "bT1"]
+             "bN9", "bT1", "bB1", "bB2", "bB3", "bB4"]
 BUG_TAG = dict(bD7=7, bD8=8, bD10=10, bD11=11, bN1=21, bN2=22, bN3=23, bN4=24, bN5=25, bN6=26,
-               bN7=27, bN8=28, bN9=29, bT1=31)
+               bN7=27, bN8=28, bN9=29, bT1=31, bB1=41, bB2=42, bB3=43, bB4=44)
 
 DTYPES = dict(float32="F32", float64="F64", bfloat16="BF16", int8="I8", int16="I16", int32="I32",
               int64="I64", bool="B1")
@@ -91,7 +91,7 @@ def tree_sig(spec):
   """signature of the parameter tree described by a tree spec (what worker.sig(params) returns)."""
   k = spec["k"]
   if k == "leaf":
-    return ["L", list(spec["shape"]), "float32"]
+    return ["L", list(spec["shape"]), spec.get("dtype", "float32")]
   if k == "dict":
     items = sorted(zip(spec["keys"], spec["ch"]))
     return ["N", "dict", [[ord(a) - ord("a") for a, _ in items]], [tree_sig(c) for _, c in items]]
@@ -100,6 +100,16 @@ def tree_sig(spec):
   if k == "none":
     return ["N", "None", [], []]
   raise ValueError(k)
+
+
+def with_dtype(spec, dt):
+  """the same tree with every parameter of dtype dt (the model has ONE parameter dtype per case)."""
+  if spec["k"] == "leaf":
+    return dict(spec, dtype=dt) if dt != "float32" else {k: v for k, v in spec.items() if k != "dtype"}
+  out = dict(spec)
+  if "ch" in spec:
+    out["ch"] = [with_dtype(c, dt) for c in spec["ch"]]
+  return out
 
 
 def tree_leaves(spec):
@@ -124,7 +134,7 @@ def coq_dscfg(cfg):
        zlit(cfg.get("num_devices_for_pjit", 1)), zlit(g("skip_preconditioning_dim_size_gt")),
        zlit(g("skip_preconditioning_rank_lt")), blit(g("generate_training_metrics")),
        blit(g("generate_fd_metrics")), zlit(g("lobpcg_topk_precondition")), blit(g("eigh")),
-       blit(bool(cfg.get("x64")))]
+       blit(bool(cfg.get("x64"))), DTYPES[cfg.get("param_dtype", "float32")]]
   return "(mkDS %s)" % " ".join(f)
 
 
@@ -161,7 +171,7 @@ def coq_tfcfg(opt, cfg):
        blit(g.get("skip_preconditioning_rank1", True)),
        qlit(m.get("momentum_decay", 0.9)), qlit(m.get("weight_decay", 0.0)),
        blit(m.get("ema", False)), blit(m.get("weight_decay_after_momentum", True)),
-       blit(bool(cfg.get("lr_callable")))]
+       blit(bool(cfg.get("lr_callable"))), DTYPES[cfg.get("param_dtype", "float32")]]
   return "(mkTF %s)" % " ".join(f)
 
 
@@ -200,7 +210,7 @@ def verdict_terms(case, r, flags):
     cfg = dict(case["cfg"], x64=case.get("x64", False))
     head = "ds_verdict %s %s" % (bugs, coq_dscfg(cfg))
   elif opt == "sm3":
-    head = "sm3_verdict"
+    head = "sm3_verdict %s %s" % (bugs, DTYPES[case["cfg"].get("param_dtype", "float32")])
   else:
     head = "tf_verdict %s %s" % (bugs, coq_tfcfg(opt, case["cfg"]))
   terms = ["%s %s %s %s %s" % (head, tree, obs_init, obs_l, blit(failed_next))]
@@ -346,6 +356,7 @@ DS_OPTIONS = [
     ("clip_by_scaled_gradient_norm", [None, 1.0]),
     ("relative_matrix_epsilon", [True, False]),
     ("x64", [False, True]),
+    ("param_dtype", ["float32", "bfloat16"]),
 ]
 
 
@@ -619,13 +630,21 @@ def gen_cases(ctx):
   cases = []
   ds_rows, stats = gen_ds(ctx, 110 if quick else 2200, 1 if quick else 4)
   ctx.cov["pairwise"] = stats
+  rngd = ctx.rng.fork()
   for why, row, tr in ds_rows:
     cfg, x64 = row_to_case(row)
-    cases.append(dict(opt="ds", cfg=cfg, x64=x64, tree=tr, why=why, row=row))
+    cases.append(dict(opt="ds", cfg=cfg, x64=x64, tree=with_dtype(tr, cfg.get("param_dtype", "float32")),
+                      why=why, row=row))
   for why, cfg, tr in gen_sm3(ctx, 10 if quick else 150):
-    cases.append(dict(opt="sm3", cfg=cfg, x64=False, tree=tr, why=why))
+    if rngd.below(3) == 0:
+      cfg = dict(cfg, param_dtype="bfloat16")
+    cases.append(dict(opt="sm3", cfg=cfg, x64=False, tree=with_dtype(tr, cfg.get("param_dtype", "float32")),
+                      why=why))
   for opt, cfg, tr in gen_tf(ctx, 60 if quick else 700):
-    cases.append(dict(opt=opt, cfg=cfg, x64=False, tree=tr, why=opt))
+    if rngd.below(4) == 0:
+      cfg = dict(cfg, param_dtype="bfloat16")
+    cases.append(dict(opt=opt, cfg=cfg, x64=False, tree=with_dtype(tr, cfg.get("param_dtype", "float32")),
+                      why=opt))
   for i, c in enumerate(cases):
     c["id"] = i
     c["T"] = 3
@@ -789,6 +808,7 @@ def histogram(ctx, cases, res):
     leaves = tree_leaves(c["tree"])
     ctx.count("tree.nleaves=%d" % len(leaves))
     ctx.count("tree.kind=%s" % c["tree"]["k"])
+    ctx.count("param_dtype=%s" % c["cfg"].get("param_dtype", "float32"))
     for s in leaves:
       ctx.count("leaf.rank=%d" % len(s))
       if 1 in s:
@@ -812,7 +832,7 @@ def load_corpus():
 def run(ctx):
   ctx.cov["rule"] = (
       "Distributed Shampoo: every option value on a base configuration x base trees, plus a greedy "
-      "pairwise covering array over the full option list (32 options incl. execution mode "
+      "pairwise covering array over the full option list (33 options incl. parameter dtype float32/bfloat16, execution mode "
       "replicated/pmap/sharded(1,2 devices) and jax_enable_x64), 3/4 of the rows repaired to satisfy "
       "the FD constraints (and, for half of the compressed rows, block_size 8 with one dimension >= 6 so that compression really applies), x random parameter trees (dict/list/tuple/nested/empty/bare array, rank "
       "0-4, unit dims); SM3; Tearfree (grafting x Shampoo/Sketchy x momentum options incl. invalid "
